@@ -471,8 +471,10 @@ CHECKS["C02"]["thorough"]["tests"].append({"test": "TestC02Triple", "checks": 60
 CHECKS["C02"]["rule"] += (" Plus the triple-occurrence texts of C19 (d): one string three times with the first copy outside the "
                           "window of the third and the second inside (or other combinations).")
 
-CHECKS["C16"]["quick"]["tests"].append({"test": "TestC16Huge", "checks": 1500, "subchecks": KINDS7})
-CHECKS["C16"]["thorough"]["tests"].append({"test": "TestC16Huge", "checks": 6000, "subchecks": KINDS7})
+CHECKS["C16"]["quick"]["tests"].append({"test": "TestC16Huge", "checks": 3000, "subchecks": KINDS7})
+CHECKS["C16"]["thorough"]["tests"].append({"test": "TestC16Huge", "checks": 60000, "subchecks": KINDS7})
+CHECKS["C02"]["quick"]["tests"].append({"test": "TestC02Skip", "checks": 6000, "subchecks": KINDS7})
+CHECKS["C02"]["thorough"]["tests"].append({"test": "TestC02Skip", "checks": 25000, "subchecks": KINDS7})
 CHECKS["C02"]["quick"]["tests"].append({"test": "TestC02Huge", "checks": 2000, "subchecks": KINDS7})
 CHECKS["C02"]["thorough"]["tests"].append({"test": "TestC02Huge", "checks": 8000, "subchecks": KINDS7})
 CHECKS["C02"]["rule"] += (" Plus 'no window limit' configurations: WindowSize at and a little below the largest accepted value "
